@@ -359,9 +359,10 @@ func (w *world) afterOp(op Op) *core.Violation {
 		// with it set the same replay ends in hang|... at the next send)
 		return nil
 	}
-	// (every operation is synchronous or has been synchronised on its last effect, so
-	// nobody can legitimately hold a client mutex here; the grace is only paranoia)
-	ids := w.fx.LeakedMutexes(5 * time.Millisecond)
+	// (a handler may still be between its last write and the Unlock that follows it, and can
+	// be descheduled there on a loaded machine: a mutex counts as left locked only if it
+	// cannot be taken for a whole second while no write is in progress on that connection)
+	ids := w.fx.LeakedMutexes(time.Second)
 	if len(ids) == 0 {
 		return nil
 	}
